@@ -7,7 +7,7 @@ from vlib import pastltl as pl
 ID = 'C15'
 LEVEL = 'exploration'
 RULE = ('ALL formulas of depth <= 2 over {p, q} with ~ /\\ \\/ => <=> -X --X '
-        '-[] -<> S (and a seed-selected block of depth 3; formulas with an '
+        '-[] -<> S, all of depth <= 2 over {p, TRUE, FALSE} with ~ /\\ S and the past operators (and a seed-selected block of depth 3; formulas with an '
         'integer comparison under a past operator), translated by '
         'omega.logic.past.translate; on ALL traces of length 4 (thorough 5) '
         'over the valuations of the variables: exactly one valuation of the '
@@ -32,7 +32,16 @@ CHUNK = 150
 
 def _past_formulas(tier, seed):
     base = pl.formulas(['p', 'q'], 2, UN, BIN)
-    return base
+    # constants as operands (e.g. "~ --X TRUE" = "first position")
+    withc = pl.formulas(['p', 'TRUE', 'FALSE'], 2, UN, ['/\\', 'S'])
+    withc = [f for f in withc if _mentions_const(f)]
+    return base + withc
+
+
+def _mentions_const(t):
+    if isinstance(t, str):
+        return t in ('TRUE', 'FALSE')
+    return any(_mentions_const(x) for x in t[1:])
 
 
 def _extra_formulas(tier, seed):
